@@ -173,3 +173,8 @@ OWN = {
     # store's overwrite policy (`result`, `step`) is an extension of the specification
     "C20": {"artifact": "*", "store_op": ["no_panic", "fresh_store", "readable", "stored_content", "others_untouched"]},
 }
+
+# a history that hangs or crashes the code under test counts against every property whose check performs it
+for _p in OWN:
+    for _ev in ("seq", "chain_encode", "store"):
+        OWN[_p].setdefault(_ev, ["no_hang_no_panic"])
